@@ -91,3 +91,120 @@ def addends(t):
     if t[0] == "+":
         return addends(t[1]) + addends(t[2])
     return [t]
+
+
+# ---- parity under the joint sign flip (mu, M1, M2, M3, A_f -> -) -------------------------------------
+EVEN, ODD, MIXED, UNKNOWN = "even", "odd", "mixed", "unknown"
+
+ODD_FIELDS = {"Mu", "MassB", "MassWB", "MassG", "Ae", "Au", "Ad", "TYe", "TYu", "TYd"}
+# mixing matrices: their transformation depends on how the eigen-solver absorbs the signs
+MIXING_FIELDS = {"ZN", "UM", "UP", "ZM", "ZE", "ZTau", "ZU", "ZD", "ZC", "ZS", "ZB", "ZT", "ZH", "ZA", "ZP"}
+EVEN_CALLS = {"abs", "norm", "cosh", "cos", "isfinite", "isnan"}
+ODD_CALLS = {"sinh", "sin", "tan", "atan", "asin", "signed_sqr", "signed_abs_sqrt", "cbrt"}
+
+
+def _mul(a, b):
+    if UNKNOWN in (a, b):
+        return UNKNOWN
+    if MIXED in (a, b):
+        return MIXED
+    return EVEN if a == b else ODD
+
+
+def parity(t, why=None, field_parity=None):
+    """parity of term t under the joint sign flip; `why` collects the sub-terms responsible for a
+    non-even verdict"""
+    def note(x, p):
+        if why is not None and p in (MIXED, UNKNOWN, ODD):
+            why.append((p, x))
+        return p
+
+    def par(t):
+        h = t[0]
+        if h in ("num", "str", "enum", "null", "void"):
+            return EVEN
+        if h == "sym":
+            return EVEN
+        if h in ("this", "obj", "struct"):
+            return EVEN
+        if h == "field":
+            name = t[2]
+            if field_parity and name in field_parity:
+                return field_parity[name]
+            if name in ODD_FIELDS:
+                return ODD
+            if name in MIXING_FIELDS:
+                return note(t, UNKNOWN)
+            return EVEN
+        if h == "elem":
+            return par(t[1])
+        if h in ("*", "/"):
+            return _mul(par(t[1]), par(t[2]))
+        if h in ("+", "-"):
+            a, b = par(t[1]), par(t[2])
+            if t[1] == ("num", 0):
+                return b
+            if t[2] == ("num", 0):
+                return a
+            if UNKNOWN in (a, b):
+                return UNKNOWN
+            if a == b and a in (EVEN, ODD):
+                return a
+            return note(t, MIXED)
+        if h == "neg":
+            return par(t[1])
+        if h in ("cmp",):
+            a, b = par(t[2]), par(t[3])
+            if a == EVEN and b == EVEN:
+                return EVEN
+            if UNKNOWN in (a, b):
+                return UNKNOWN
+            return note(t, MIXED)        # ordering/equality test on a sign-changing quantity
+        if h in ("and", "or"):
+            a, b = par(t[1]), par(t[2])
+            if a == EVEN and b == EVEN:
+                return EVEN
+            return UNKNOWN if UNKNOWN in (a, b) else note(t, MIXED)
+        if h == "not":
+            return par(t[1])
+        if h == "ite":
+            c, a, b = par(t[1]), par(t[2]), par(t[3])
+            if c != EVEN:
+                return UNKNOWN if c == UNKNOWN else note(t[1], MIXED)
+            if UNKNOWN in (a, b):
+                return UNKNOWN
+            if a == b:
+                return a
+            # one branch identically zero has any parity
+            if t[2] == ("num", 0):
+                return b
+            if t[3] == ("num", 0):
+                return a
+            return note(t, MIXED)
+        if h == "call":
+            name = str(t[1]).split("::")[-1]
+            args = [par(a) for a in t[2]]
+            if all(a == EVEN for a in args):
+                return EVEN
+            if UNKNOWN in args:
+                return UNKNOWN
+            if name in EVEN_CALLS and len(args) == 1 and args[0] in (EVEN, ODD):
+                return EVEN
+            if name in ODD_CALLS and len(args) == 1 and args[0] in (EVEN, ODD):
+                return args[0]
+            if name == "pow" and len(t[2]) == 2 and t[2][1][0] == "num" and t[2][1][1].denominator == 1:
+                return EVEN if int(t[2][1][1]) % 2 == 0 else args[0]
+            if name == "sqrt" and args[0] == EVEN:
+                return EVEN
+            return note(t, MIXED)        # e.g. min/max/log/sqrt of a sign-changing quantity
+        if h == "mat":
+            ps = {par(v) for _, _, v in t[3]}
+            if ps == {EVEN}:
+                return EVEN
+            return UNKNOWN if UNKNOWN in ps else MIXED
+        if h == "unknown":
+            return note(t, UNKNOWN)
+        if h == "throw":
+            return EVEN
+        return note(t, UNKNOWN)
+    return par(t)
